@@ -35,6 +35,18 @@ pub fn staircase_trials(run: &E1Run, tr: &Trace) -> (Vec<Trial>, usize) {
     if !tr.complete() {
         return (out, lead);
     }
+    // proposal number of an evaluation = number of evaluations so far in which a parameter
+    // demonstrably moved: an implementation may re-evaluate its current state as often as it likes
+    // (bookkeeping), and those evaluations must not shift the attribution of proposals to loops
+    let mut propno: Vec<usize> = Vec::with_capacity(run.obs.len());
+    let mut seen = 0usize;
+    for k in 0..run.obs.len() {
+        let definite = k >= lead && k < tr.steps.len() && !tr.steps[k].edges.is_empty() && tr.steps[k].edges.iter().all(|e| !e.null);
+        if definite {
+            seen += 1;
+        }
+        propno.push(seen);
+    }
     for k in lead..run.obs.len().saturating_sub(1) {
         let st = &tr.steps[k];
         if st.edges.is_empty() || st.edges.iter().any(|e| e.null) {
@@ -86,7 +98,7 @@ pub fn staircase_trials(run: &E1Run, tr: &Trace) -> (Vec<Trial>, usize) {
             Some(a) => a,
             None => continue,
         };
-        out.push(Trial { prop: k - lead + 1, coord: i, accepted });
+        out.push(Trial { prop: propno[k].max(1), coord: i, accepted });
     }
     (out, lead)
 }
@@ -252,12 +264,24 @@ impl C07 {
         while lead < run.obs.len() && run.obs[lead].diff.is_empty() {
             lead += 1;
         }
+        // definite moves before each evaluation: a lower bound on the number of proposals made
+        // before it (bookkeeping evaluations and zero-size moves are not counted)
+        let mut moves_before: Vec<usize> = Vec::with_capacity(run.obs.len() + 1);
+        let mut seen = 0usize;
+        for k in 0..run.obs.len() {
+            moves_before.push(seen);
+            if k >= lead && k < tr.steps.len() && !tr.steps[k].edges.is_empty() && tr.steps[k].edges.iter().all(|e| !e.null) {
+                seen += 1;
+            }
+        }
         let res = tr.feasible(run.x0_score, |e: &EdgeCtx| {
             if e.null {
                 return Ok(());
             }
-            // temperature of the inner loop this proposal belongs to
-            let kt = if two_phase && !const_kt && e.k >= lead && (e.k - lead) / inner_eff >= 1 { 0.0 } else { kt };
+            // temperature of the inner loop this proposal belongs to: the later loops (temperature
+            // zero) have begun for certain once a whole inner loop of definite moves lies behind
+            let later_loop = moves_before.get(e.k).map(|m| *m >= inner_eff).unwrap_or(false);
+            let kt = if two_phase && !const_kt && later_loop { 0.0 } else { kt };
             match (e.prop_score, e.parent_score) {
                 (None, _) if e.accepted => Err("a proposal without a defined score (None) was accepted".to_string()),
                 (Some(p), Some(c)) => {
@@ -529,7 +553,7 @@ impl Check for C18 {
                 prior: b_prior,
             };
             if until_converged {
-                super::CALL_BUDGET.with(|b| b.set(6 * inner_eff + 64));
+                super::CALL_BUDGET.with(|b| b.set(60 * inner_eff + 64));
             }
             let run = run_e1(&ps, &ls, &cfg);
             super::CALL_BUDGET.with(|b| b.set(u64::MAX));
@@ -734,7 +758,8 @@ pub fn exec_c20_unbounded(j: &J) -> Result<RunOut, String> {
     if cfg.convergence.is_none() || cfg.kt_finish.is_some() || cfg.steps < six {
         return Err("scenario error: not an unbounded-steps scenario".into());
     }
-    super::CALL_BUDGET.with(|b| b.set(six + 64));
+    // (ten times the evaluations six loops need: bookkeeping evaluations are not rationed)
+    super::CALL_BUDGET.with(|b| b.set(10 * six + 64));
     let run = run_e1(&ps, &ls, &cfg)?;
     super::CALL_BUDGET.with(|b| b.set(u64::MAX));
     let tr = run.trace();
@@ -846,9 +871,10 @@ pub fn exec_c20_e1(j: &J) -> Result<RunOut, String> {
     // (ii) amount of work: calls = proposals + up to 2 bookkeeping evaluations
     let calls = run.obs.len() as u64;
     let inner_eff = cfg.inner.min(cfg.steps);
-    if calls > cfg.steps + 2 {
-        out.violate(Violation::new("too-many-proposals", calls, format!("{} score() evaluations for steps = {} (at most steps proposals + 2 bookkeeping evaluations)", calls, cfg.steps)));
-    }
+    // An evaluation of a state that equals a possible current state (nothing moved) is
+    // bookkeeping or a no-op proposal; either way it is not a proposal that can be told apart,
+    // and an implementation is free to make as many of them as it likes.  What `steps` bounds
+    // are the evaluations in which a parameter demonstrably moved (clause below).
     // (inner_steps = 0 has no defined loop length: the lower bound and the loop-boundary clauses are
     // not applied to it, only no-panic, the upper bound and the prefix property)
     if cfg.convergence.is_none() && cfg.inner > 0 && calls + inner_eff < cfg.steps {
@@ -896,6 +922,16 @@ pub fn exec_c20_e1(j: &J) -> Result<RunOut, String> {
             let props = (m - lead) as u64;
             out.count("probe.early_exit", 1);
             out.nontrivial = true;
+            // The loop-boundary clauses read "evaluation k is proposal k".  That is exact when the
+            // run without a threshold makes one evaluation per proposal plus at most two
+            // bookkeeping ones; an implementation that also re-evaluates its current state now and
+            // then (a drift check per loop, say) is free to do so, and its evaluations cannot be
+            // numbered as proposals: for it only the prefix property above is decided.
+            let expected_props = if cfg.inner > 0 { (cfg.steps / cfg.inner) * cfg.inner } else { 0 };
+            if cfg.inner > 0 && t.len() as u64 > expected_props + 2 {
+                out.count("probe.extra_bookkeeping_evaluations(loop clauses not applied)", 1);
+                return Ok(out);
+            }
             let ttr = twin.trace();
             let res = ttr.score_after();
             let score_after = |p: u64| -> Option<f64> {
